@@ -126,16 +126,27 @@ class Recorder:
         return state, None
 
 
-class TraceFn:
-    """Picklable trace function of a given kind; optionally raises KeyboardInterrupt at its k-th call for a chain."""
+_TRACE_CALLS = {}   # (pid, trace index) -> number of in-iteration calls, for per-process interrupts
 
-    def __init__(self, kind, interrupt_at=None):
+
+class TraceFn:
+    """Picklable trace function of a given kind; optionally raises KeyboardInterrupt at a given (chain, iteration), or
+    at its k-th in-iteration call in EVERY process (as a terminal Ctrl-C reaches all workers)."""
+
+    def __init__(self, kind, interrupt_at=None, per_process_at=None, index=0):
         self.kind = kind
         self.interrupt_at = interrupt_at
+        self.per_process_at = per_process_at
+        self.index = index
 
     def __call__(self, state):
         if self.interrupt_at is not None and int(state.it) > 0 and [int(state.cid), int(state.it)] == list(self.interrupt_at):
             raise KeyboardInterrupt
+        if self.per_process_at is not None and int(state.it) > 0:
+            key = (os.getpid(), self.index)
+            _TRACE_CALLS[key] = _TRACE_CALLS.get(key, 0) + 1
+            if _TRACE_CALLS[key] == self.per_process_at:
+                raise KeyboardInterrupt
         return trace_values(self.kind, np.asarray(state.pos, dtype=float), np.asarray(state.mom, dtype=float),
                             int(state.dir), int(state.it))
 
@@ -253,6 +264,8 @@ def build(cfg, log, *, delays=None, draw=False, interrupt=None, wrap_user=None, 
         it_tr = mt.SliceDynamicIntegrationTransition(system, integ, max_tree_depth=cfg["depth"])
     mom_tr = mt.IndependentMomentumTransition(system)
     ia = interrupt[2:] if interrupt and interrupt[0] == "transition" else None
+    if interrupt and interrupt[0] not in ("transition", "trace", "trace-per-process"):
+        raise ValueError(interrupt)
     with warnings.catch_warnings():
         warnings.simplefilter("ignore", DeprecationWarning)
         rng = make_rng(cfg)
@@ -300,7 +313,11 @@ def build(cfg, log, *, delays=None, draw=False, interrupt=None, wrap_user=None, 
     b.explicit_momenta = not (cfg["init"] == "array" and b.hmc)
     # traces
     ti = interrupt if interrupt and interrupt[0] == "trace" else None
-    b.trace_funcs = [TraceFn(k, interrupt_at=(ti[2:] if ti and ti[1] == i else None)) for i, k in enumerate(cfg["traces"])]
+    tp = interrupt if interrupt and interrupt[0] == "trace-per-process" else None
+    _TRACE_CALLS.clear()
+    b.trace_funcs = [TraceFn(k, interrupt_at=(ti[2:] if ti and ti[1] == i else None),
+                             per_process_at=(tp[2] if tp and tp[1] == i else None), index=i)
+                     for i, k in enumerate(cfg["traces"])]
     # adapters
     ads = []
     if cfg["adapters"] != "none":
